@@ -5,9 +5,9 @@ PLAN = {
     "level": "exploration",
     "quick": [
         replays("C01_struct", case_timeout=300), replays("C01_bytes", case_timeout=300),
-        tape("C01_struct", 1600, size=500, case_timeout=300),
-        fuzz("C01_struct", 40, workers=8, corpus=[], max_len=4096, dictionary=None, timeout=120),
-        fuzz("C01_bytes", 40, workers=8, corpus=_corpus, max_len=65536, dictionary="$VERIF/support/cellml.dict", timeout=120, prefix_config_byte=[0, 3, 7]),
+        tape("C01_struct", 960, size=500, case_timeout=300),
+        fuzz("C01_struct", 30, workers=8, corpus=[], max_len=4096, dictionary=None, timeout=120),
+        fuzz("C01_bytes", 30, workers=8, corpus=_corpus, max_len=65536, dictionary="$VERIF/support/cellml.dict", timeout=120, prefix_config_byte=[0, 3, 7]),
     ],
     "thorough": [
         replays("C01_struct", case_timeout=300), replays("C01_bytes", case_timeout=300),
